@@ -73,7 +73,21 @@ var big530Setup = func() []fsx.Op {
 	return s
 }()
 
+// on a disk with 10 free data blocks: allocations that fail half-way and blocks freed in the transaction that allocated them
+func c05TinyAlphabet() []fsx.Op {
+	return []fsx.Op{
+		{K: "CREATE", H: "root", N: "a"}, {K: "CREATE", H: "root", N: "b"}, {K: "MKDIR", H: "root", N: "d"}, {K: "SYMLINK", H: "root", N: "s", Target: "target"},
+		{K: "WRITE", H: "root/a", Off: 0, Cnt: 7 * 4096, Pat: 0x61, Stable: 2}, {K: "WRITE", H: "root/a", Off: 7 * 4096, Cnt: 2 * 4096, Pat: 0x62, Stable: 2},
+		{K: "WRITE", H: "root/a", Off: 8 * 4096, Cnt: 10, Pat: 0x63, Stable: 0}, {K: "WRITE", H: "root/b", Off: 0, Cnt: 3 * 4096, Pat: 0x64, Stable: 2},
+		{K: "WRITE", H: "root/b", Off: (8 + 512) * 4096, Cnt: 1, Pat: 0x65, Stable: 2}, {K: "READ", H: "root/b", Off: 0, Cnt: 8 * 4096},
+		{K: "SETATTR", H: "root/a", Size: 100}, {K: "SETATTR", H: "root/a", Size: 0}, {K: "SETATTR", H: "root/b", Size: 20 * 4096},
+		{K: "REMOVE", H: "root", N: "a"}, {K: "REMOVE", H: "root", N: "b"}, {K: "RMDIR", H: "root", N: "d"}, {K: "REMOVE", H: "root", N: "s"},
+		{K: "RESTART"}, {K: "DELETEALL"},
+	}
+}
+
 func init() {
+	RegisterSeq("c05.tiny", &SeqSpec{Prop: "C05", DiskSize: 1539 + 1 + 10, Alphabet: c05TinyAlphabet(), After: c05After, AllowImplFail: true})
 	Checks["C05"] = C05
 	RegisterSeq("c05.seq", &SeqSpec{Prop: "C05", DiskSize: 2200, Alphabet: c05Alphabet(), After: c05After,
 		Key: func(w *World) string { w.Probe = crashProbe; return w.defaultKey() }})
@@ -85,9 +99,10 @@ func C05(r *report.Report, tier string) {
 		depth, bound, maxImg = 4, 2, 0
 	}
 	r.Only = map[string]bool{"C05": true}
-	r.Rule = fmt.Sprintf("(i) breadth-first search to depth %d over a %d-symbol build/delete alphabet (files of every size class, sparse file freed in the background, hole filled by a read, shrink/grow, renames over existing targets, refused operations, restart, delete-everything) on a 2200-block disk: after every transition the shrinkers run to completion under the scheduler and the audit demands blocks/inodes marked in use == reachable from the root, in-memory allocators == on-disk bitmaps, and after delete-everything the free counts of the fresh file system; (ii) every crash image (cap %d per history in quick) of histories that remove / truncate a 530-block file freed by several background transactions: after recovery every survivor is touched, files are created until every half-freed inode number has been handed out again, then the same audit; (iii) schedules (<=%d deviations) of the concurrent free harnesses with the audit at the end", depth, len(c05Alphabet()), maxImg, bound)
+	r.Rule = fmt.Sprintf("(i) breadth-first search to depth %d over a %d-symbol build/delete alphabet (files of every size class, sparse file freed in the background, hole filled by a read, shrink/grow, renames over existing targets, refused operations, restart, delete-everything) on a 2200-block disk, and a second search on a disk with 10 free data blocks (allocations that fail half-way, short writes, holes filled without space): after every transition the shrinkers run to completion under the scheduler and the audit demands blocks/inodes marked in use == reachable from the root, in-memory allocators == on-disk bitmaps, and after delete-everything the free counts of the fresh file system; (ii) every crash image (cap %d per history in quick) of histories that remove / truncate a 530-block file freed by several background transactions: after recovery every survivor is touched, files are created until every half-freed inode number has been handed out again, then the same audit; (iii) schedules (<=%d deviations) of the concurrent free harnesses with the audit at the end", depth, len(c05Alphabet()), maxImg, bound)
 	s1 := RunSeq(r, "c05.seq", depth)
-	r.Extra["searches"] = []*SeqSummary{s1}
+	s2 := RunSeq(r, "c05.tiny", depth+1)
+	r.Extra["searches"] = []*SeqSummary{s1, s2}
 	var jobs []crashArg
 	for _, h := range [][]fsx.Op{
 		{{K: "REMOVE", H: "root", N: "big"}},
